@@ -236,7 +236,9 @@ static void end_pushes (void) {
 static void initialize_push (void) {
 
   int what = mem_block[current_block].block[push_start];
-  int arg = mem_block[current_block].block[push_start + 1];
+  /* F_CONST0 / F_CONST1 have no operand byte: when one of them is the last byte generated so far,
+   * push_start + 1 is past the end of what has been written (and possibly of the block) */
+  int arg = (what == F_CONST0 || what == F_CONST1) ? 0 : mem_block[current_block].block[push_start + 1];
 
   prog_code = mem_block[current_block].block + push_start;
   ins_byte (F_PUSH);
